@@ -344,6 +344,8 @@ def overflow_depot(ctx):
                 call("model::vehicle_types::VehicleTypes::iter") in al)
         ctx.decide(o, ok, detail, detail)
     overflow_default(ctx, "R5")
+    from .C06 import overflow_covers_maintenance
+    overflow_covers_maintenance(ctx, "R5")
 
 
 def rules(ctx):
